@@ -378,7 +378,7 @@ class TracklistController:
             validation.check_instances(tracks, Track)
         if uris is not None:
             validation.check_uris(uris)
-        validation.check_integer(at_position or 0)
+        validation.check_integer(at_position or 0, min=0)
 
         if tracks:
             deprecation.warn("core.tracklist.add:tracks_arg")
